@@ -1,6 +1,7 @@
 """C01: reported reachability probabilities are the max-min values."""
 from fractions import Fraction as Fr
-from common import enc, dec, P1, P2, PR
+from common import enc, dec, P1, P2, PR, KINDS, fdec, cz, cstr, clist, cnats, NotRepresentable
+import coqrun
 import solvecommon as sc, oracle_exact as ox, impl
 
 RULE = ("corpus (figure 5.5, repaired-defect shapes) + every dead/alive pattern of <=3 successors + random games of 3-9 "
@@ -79,12 +80,59 @@ def known_k1(ctx):
                 ctx.violation("slow-mixing chain reports %r, true value 1" % p[0], dict(game=enc(K1_WITNESS), prune=False, op="reach"))
 
 
+def cq(x):
+    m, e = fdec(x)
+    return "(QF %s %s)" % (cz(m), cz(e))
+
+
+def cgame_q(g):
+    tl = []
+    for i, row in enumerate(g["transition_list"]):
+        if g["players"][i] == PR:
+            tl.append(clist(["(mkT \"\" %s %d)" % (cq(x), d) for x, d in row]))
+        else:
+            tl.append(clist(["(mkT %s (QF 0 0) %d)" % (cstr(x), d) for x, d in row]))
+    return "(mkG %s %s %s %s)" % (clist([cq(r) for r in g["rewards"]]), clist([KINDS[p] for p in g["players"]]),
+                                  clist(tl), cnats(g["final_states"]))
+
+
+def exact_vs_float(ctx, recs):
+    """the model on EXACT rationals (instance Q, the one the numeric theorems are about) against the implementation's
+    binary64 probabilities: every state within 1e-9. Measures the effect of rounding the theorems do not cover."""
+    terms, meta = [], []
+    budget = 60 if ctx.quick else 600
+    for r in recs:
+        if not r.ok or r.prune or r.meta["style"] == "tiny" or len(terms) >= budget:
+            continue
+        it = r.out[4] if r.op == "solve" else r.out[2]
+        if it > 60 or len(r.game["players"]) > 8:
+            continue
+        try:
+            terms.append("(%s, false, %s, %d)" % (cgame_q(r.game), clist([cq(x) for x in probs_of(r)]), it))
+            meta.append(r)
+        except NotRepresentable:
+            pass
+    hdr = sc.HDR.replace("From Coq Require Import List ZArith String.", "From Coq Require Import List ZArith String.\nFrom Coq Require QArith.")
+    body = lambda l: ("Definition cases : list qreach_case := %s.\n"
+                      "Eval vm_compute in (run_qreach_cases (QArith_base.Qmake 1 1000000000) cases).") % l
+    bad, errs = coqrun.eval_case_files("c01q", hdr, coqrun.chunked(terms, 20), body)
+    ctx.count("exact-vs-binary64 runs", len(terms))
+    ctx.notes.append("instance Q (exact rationals) vs implementation (binary64): %d games, %d with a state differing by more than 1e-9"
+                     % (len(terms), len(bad)))
+    for b in bad:
+        ctx.corr_break("exact-rational model and binary64 implementation differ by more than 1e-9 (or need a different number of sweeps)",
+                       meta[b].inp())
+    for e in errs:
+        ctx.harness_errors.append("coqc failed on %s: %s" % (e[0], e[2][-600:]))
+
+
 def run(ctx):
     n = 160 if ctx.quick else 2500
     games = sc.standard_games(ctx, n, 3, 9 if ctx.quick else 10)
     recs = sc.run_games(ctx, games, limit=10 if ctx.quick else 30, tag="c01")
     sc.correspondence(ctx, recs, "cmp_probs", "c01")
     check_values(ctx, recs)
+    exact_vs_float(ctx, recs)
     known_k1(ctx)
 
 
